@@ -147,6 +147,8 @@ class MultiField(Operator):
             dtype = {kk: dtype for kk in domain.keys()}
         if not isinstance(device_id, dict):
             _device_id = defaultdict(lambda: device_id)
+        else:
+            _device_id = device_id
         dct = {kk: Field.from_random(domain[kk], random_type, dtype[kk],
                                      device_id=_device_id[kk], **kwargs)
                for kk in domain.keys()}
